@@ -1,5 +1,5 @@
 """Self-test of the STO detector (terms.sto): on equations for which it says NSTO, the Herbrand algorithm with
-occurs check is run under 12 visiting orders / orientations drawn from a fixed-seed PRNG stream (this is a test of
+occurs check is run under 24 visiting orders / orientations drawn from a fixed-seed PRNG stream (this is a test of
 the oracle, not of the code under test; its inputs do not depend on VERIF_SEED) - none may reach the occurs check."""
 import random
 from .terms import sto, walk, mklist
@@ -18,6 +18,20 @@ def _gterm(rnd, nv, depth=0):
     if items and rnd.random() < 0.3:
         return mklist(items, ('v', rnd.randrange(nv)))
     return mklist(items)
+
+
+def _variant(rnd, t, nv):
+    """t with sub-terms replaced by a variable, a variable wrapped in a functor, or a constant"""
+    x = rnd.random()
+    if x < 0.2:
+        return ('v', rnd.randrange(nv))
+    if x < 0.3:
+        return ('f', 'f', (('v', rnd.randrange(nv)),))
+    if x < 0.4:
+        return ('a', rnd.choice('ab'))
+    if t[0] == 'f':
+        return ('f', t[1], tuple(_variant(rnd, a, nv) if rnd.random() < 0.6 else a for a in t[2]))
+    return t
 
 
 def herbrand_random(a, b, rnd):
@@ -53,14 +67,68 @@ def herbrand_random(a, b, rnd):
     return 'ok'
 
 
+def _V(i):
+    return ('v', i)
+
+
+def _A(n):
+    return ('a', n)
+
+
+def _F(n, *a):
+    return ('f', n, tuple(a))
+
+
+# equations on which an earlier version of the detector was wrong (must be STO)
+MUST_BE_STO = [
+    # thorough C06, seed 1: s(Q,Q,Q) = s('.'(f(V0),a), [V0|V1], '.'(a,a))
+    (_F('s', _V(9), _V(9), _V(9)),
+     _F('s', _F('.', _F('f', _V(0)), _A('a')), _F('.', _V(0), _V(1)), _F('.', _A('a'), _A('a')))),
+]
+# and equations that must stay NSTO (the detector must not turn into "always STO")
+MUST_BE_NSTO = [
+    (mklist([_A('k')]), mklist([_A('k'), _A('m')])),
+    (_F('f', _V(0), _V(1)), _F('f', _V(1), _A('a'))),
+    (_F('s', _V(9), _V(9)), _F('s', _F('g', _V(0), _A('a')), _F('g', _A('b'), _V(1)))),
+]
+
+
 def sto_selftest(n, seed=12345):
     rnd = random.Random(seed)
     fn = nsto = stoc = over = 0
-    for _ in range(n):
+    for a, b in MUST_BE_STO:
+        if not sto(a, b, {}):
+            fn += 1
+    for a, b in MUST_BE_NSTO:
+        if sto(a, b, {}):
+            over += 1000000
+    for i in range(n):
         nv = rnd.randint(1, 4)
-        a, b = _gterm(rnd, nv), _gterm(rnd, nv)
+        if i % 3 == 0:
+            # one variable against several structures: f(X,X,X) = f(t1,t2,t3) (the shape that needs pairwise decomposition)
+            k = rnd.randint(2, 3)
+            v = ('v', rnd.randrange(nv))
+            a = ('f', 'h', tuple(v if rnd.random() < 0.8 else _gterm(rnd, nv, 1) for _ in range(k)))
+            base = _gterm(rnd, nv, 1)
+            b = ('f', 'h', tuple(_variant(rnd, base, nv) for _ in range(k)))
+        elif i % 6 == 1:
+            # directed: the same skeleton three times, the hole filled with f(X), X and a third term
+            x = ('v', rnd.randrange(nv))
+            v = ('v', nv)
+            holes = [('f', 'f', (x,)), x, _gterm(rnd, nv, 2)]
+            rnd.shuffle(holes)
+            other = [_gterm(rnd, nv, 2) for _ in range(3)]
+
+            mk = rnd.randrange(3)
+            args = []
+            for h, o in zip(holes, other):
+                args.append([('f', 'g', (h, o)), ('f', 'g', (o, h)), ('f', '.', (h, o))][mk])
+            a = ('f', 'h', (v, v, v))
+            b = ('f', 'h', tuple(args))
+        else:
+            a, b = _gterm(rnd, nv), _gterm(rnd, nv)
         d = sto(a, b, {})
-        outcomes = {herbrand_random(a, b, rnd) for _ in range(12)}
+        outcomes = {herbrand_random(a, b, rnd) for _ in range(24)}
         if d:
             stoc += 1
             over += ('occurs' not in outcomes)
